@@ -302,14 +302,25 @@ def run(repo, chk):
         if o.raised:
             continue
         c = dict((t, v) for t, v in o.conds)
-        n0 = c.get("len(self._multipliers) == 0")
-        n1 = c.get("len(self._multipliers) == 1")
+        from ._shared import forced as _forced
+        n0 = _forced("len(self._multipliers) == 0", c)
+        n1 = _forced("len(self._multipliers) == 1", c)
+        wrap_ = _forced("self.wrap", c)
         if n0:
             chk.expect(o.ret == 1.0, "R-C01-5a", "Pattern.at of an empty pattern is 1.0", loc(pat_fn), found=o.ret)
             seenp.add("empty")
-        elif n1:
-            chk.expect(isinstance(o.ret, Opaque) and o.ret.text == "self._multipliers[0]", "R-C01-5a", "Pattern.at of a one-value pattern is that value", loc(pat_fn), found=o.ret)
+        elif n1 and isinstance(o.ret, Opaque) and o.ret.text == "self._multipliers[0]" and not any("pattern_timestep" in t for t in c):
+            # the one-value shortcut (taken before the step is computed): only a wrapping pattern repeats its single value for ever
+            chk.expect(wrap_ is True, "R-C01-5a", "Pattern.at: the one-value shortcut applies to wrapping patterns only", loc(pat_fn),
+                       "a non-wrapping pattern expires after its last step (documented: 0.0 once exhausted); returning the single multiplier at every time keeps e.g. a "
+                       "fire-fighting demand of one pattern step switched on for the rest of the simulation", expected="guarded by self.wrap", found=sorted(c.items()))
             seenp.add("single")
+        elif wrap_ is False and c.get("self.wrap") is False:
+            # non-wrapping branch: 0.0 outside [0, n), multipliers[step] inside
+            if o.ret == 0.0 or o.ret == 0:
+                seenp.add("nowrap-outside")
+            elif isinstance(o.ret, Opaque) and o.ret.base is not None and o.ret.base.text == "self._multipliers":
+                seenp.add("nowrap-inside")
         elif c.get("self.wrap") and c.get("self._time_options.pattern_interpolation") is False:
             r = o.ret
             okp = isinstance(r, Opaque) and r.base is not None and r.base.text == "self._multipliers" and isinstance(r.key, sp.Basic)
@@ -320,7 +331,8 @@ def run(repo, chk):
             chk.expect(bool(okp), "R-C01-5a", "Pattern.at (wrap) = multipliers[ floor(time / pattern_timestep) mod n ]", loc(pat_fn),
                        found=str(getattr(r, "key", r)))
             seenp.add("wrap")
-    chk.expect(seenp == {"empty", "single", "wrap"}, "R-C01-5a", "Pattern.at: empty / single / wrap paths located", loc(pat_fn), found=sorted(seenp))
+    chk.expect({"empty", "single", "wrap"} <= seenp, "R-C01-5a", "Pattern.at: empty / single / wrap paths located", loc(pat_fn), found=sorted(seenp))
+    chk.expect({"nowrap-outside", "nowrap-inside"} <= seenp, "R-C01-5a", "Pattern.at without wrap: 0.0 outside the pattern's steps, the step's multiplier inside", loc(pat_fn), found=sorted(seenp))
 
     # ---------------------------------------------------------------- R-C01-5b demand clock at every call site in wntr.sim
     nsites = 0
@@ -421,6 +433,7 @@ def run(repo, chk):
 
 
 WITNESSES = [
+    dict(name="single-value-pattern-never-expires", file=ELEM, old="        if nmult == 1 and self.wrap:", new="        if nmult == 1:", rule="R-C01-5a"),
     dict(name="refresh-skips-unpatterned-junctions", file="wntr/sim/models/param.py",
          old="        for node_name, node in wn.junctions():\n            m.expected_demand[node_name].value =",
          new="        for node_name, node in wn.junctions():\n            if node.demand_timeseries_list[0].pattern is None:\n                continue\n            m.expected_demand[node_name].value =", rule="R-C01-5e"),
